@@ -373,6 +373,57 @@ func requeuerScenario(fromMeta bool, delay time.Duration, n, f, c int) *explore.
 	}}
 }
 
+// The Requeuer is stopped (Run's context cancelled) before, during or after the delay it waits before
+// requeueing: whatever happens, a consumed message is acknowledged only after the destination accepted it.
+func requeuerStopScenario(delay time.Duration, c int) *explore.Scenario {
+	return &explore.Scenario{Name: fmt.Sprintf("requeuer/stop-during-delay/delay=%v/c%d", delay, c), C: c, DataOnly: c < 0, Body: func() {
+		m := alphabetMsg(vs.Choose(nAlphabet, 0, "message"), "u0")
+		sub := hx.NewScriptSub("in", map[string][]*message.Message{"poison": {m}})
+		sub.Redeliver = 1
+		dest := faultyDest("dest", 1)
+		rq, err := requeuer.NewRequeuer(requeuer.Config{
+			Subscriber: sub, SubscribeTopic: "poison", Publisher: dest, Delay: delay,
+			GeneratePublishTopic: func(p requeuer.GeneratePublishTopicParams) (string, error) { return "constant", nil },
+		}, nil)
+		if err != nil {
+			vs.Fail("setup", "%v", err)
+			return
+		}
+		ctx, cancel := context.WithCancel(context.Background())
+		go func() {
+			if err := rq.Run(ctx); err != nil {
+				vs.Fail("run-result", "%v", err)
+			}
+		}()
+		stopAfter := []time.Duration{0, delay / 2, delay, delay + delay/2, 3 * delay}[vs.Choose(5, 0, "stop after")]
+		if stopAfter > 0 {
+			time.Sleep(stopAfter)
+		}
+		cancel()
+		vs.Quiesce()
+		accepted := map[*message.Message]bool{}
+		for _, c := range dest.Snapshot() {
+			for _, pm := range c.Msgs {
+				if c.Outcome == hx.PubOK {
+					accepted[pm] = true
+				}
+			}
+		}
+		desc := fmt.Sprintf("stop after %v: ", stopAfter)
+		for _, d := range sub.Snapshot() {
+			st := hx.SettlementOf(d.Msg)
+			if d.Acked() && !accepted[d.Msg] {
+				vs.Fail("ack-only-after-accepted", "requeuer (delay %v) stopped after %v: consumed copy #%d of %s is acked but the destination never accepted it (%d destination calls)", delay, stopAfter, d.Attempt, d.UUID, len(dest.Snapshot()))
+			}
+			if accepted[d.Msg] && st == "nacked" {
+				vs.Fail("settlement", "requeuer (delay %v) stopped after %v: the destination accepted copy #%d of %s but it was nacked", delay, stopAfter, d.Attempt, d.UUID)
+			}
+			desc += fmt.Sprintf("%s#%d:%s ", d.UUID, d.Attempt, st)
+		}
+		vs.Note("%s calls=%d", desc, len(dest.Snapshot()))
+	}}
+}
+
 // ---- FanOut -----------------------------------------------------------------------------------------------
 
 func fanOutScenario(subs, n, c int) *explore.Scenario {
@@ -470,6 +521,13 @@ func init() {
 		}
 	}
 	add(reg.Quick, 10, func(t reg.Tier) *explore.Scenario { return requeuerScenario(true, 0, 1, 1, 0) })
+	add(reg.Quick, 10, func(t reg.Tier) *explore.Scenario {
+		if t == reg.Thorough {
+			return requeuerStopScenario(4*time.Second, 1)
+		}
+		return requeuerStopScenario(4*time.Second, 0)
+	})
+	add(reg.Quick, 5, func(t reg.Tier) *explore.Scenario { return requeuerStopScenario(0, 0) })
 	for _, s := range []int{1, 2} {
 		s := s
 		add(reg.Quick, 5, func(t reg.Tier) *explore.Scenario {
